@@ -84,9 +84,9 @@ func (fs fullSpec) oldestKept(retained uint64) uint64 {
 }
 
 type fullStart struct {
-	Retained   int   `json:\"retained,omitempty\"` // retainedBlocks configured for this start (0 = the spec's)
-	Prune      bool  `json:"prune,omitempty"`      // optional migration "prune-mode" enabled
-	HeadState  bool  `json:"headState"`            // optional migration "new-state" enabled
+	Retained   int   `json:"retained,omitempty"` // retainedBlocks configured for this start (0 = the spec's)
+	Prune      bool  `json:"prune,omitempty"`    // optional migration "prune-mode" enabled
+	HeadState  bool  `json:"headState"`          // optional migration "new-state" enabled
 	Inflate    bool  `json:"inflate"`
 	CancelAt   int   `json:"cancelAt"`             // cancel right after this store commit (0 = never)
 	CrashAt    int   `json:"crashAt"`              // the process dies right after this store commit (0 = never)
@@ -1350,8 +1350,8 @@ func oldestRetained(d *memory.Database) uint64 {
 // pruneCutoffGrid: dense prunable chains over a grid of heights x retainedBlocks x L1-head positions,
 // one undisturbed start with prune-mode each, plus restarts on a database a dead run already pruned,
 // with another retention. The cutoff the real pruner pruned to (or its refusal to prune, or its
-// failure) must be what the model's `cutoff` / `setupOk` say; the two variant flags of the model
-// are decided by two fixed probes first.
+// failure) must be what the model's `cutoff` / `setupOk` say (the model is the current tree: a regression of
+// 322dd0d / dfe482d shows up as a mismatch here and as a violation in the families on the same inputs).
 func (h *harness) pruneCutoffGrid() {
 	dense := func(n int) chainSpec {
 		return chainSpec{Seed: 9, Counts: repeatInt(2, n), Layout: strings.Repeat("o", n)}
@@ -1360,22 +1360,6 @@ func (h *harness) pruneCutoffGrid() {
 		o := realFullStart(d, fs, fullStart{Prune: true, Retained: ret})
 		return o, oldestRetained(o.after)
 	}
-	// probe 1: pivot == retained
-	zero := true
-	{
-		l1 := uint64(4)
-		fs := fullSpec{Chain: dense(7), Prunable: true, L1Head: &l1, Retained: 4}
-		d, err := fs.build()
-		if err != nil {
-			h.res.Fatalf("pruner probe fixture does not build: %v", err)
-			return
-		}
-		o, _ := run(fs, d, 4)
-		zero = o.result != "ok"
-	}
-	// probe 2: a database pruned up to 14 by a dead run (emulated: the prune of setupBeforeStager
-	// committed, nothing else), restart with a larger retention
-	below := true
 	mkPruned := func(fs fullSpec, upto uint64) (*memory.Database, error) {
 		d, err := fs.build()
 		if err != nil {
@@ -1391,24 +1375,11 @@ func (h *harness) pruneCutoffGrid() {
 		}
 		return o.after, nil
 	}
-	{
-		fs := fullSpec{Chain: dense(20), Prunable: true}
-		d, err := mkPruned(fs, 14)
-		if err != nil {
-			h.res.Fatalf("pruner probe fixture does not build: %v", err)
-			return
-		}
-		o, _ := run(fs, d, 9)
-		below = o.result != "ok"
-	}
-	h.res.Hit(fmt.Sprintf("probe:pruner-zeroCutoffRuns=%v", zero))
-	h.res.Hit(fmt.Sprintf("probe:pruner-cutoffBelowPruned=%v", below))
-	b2 := map[bool]string{true: "1", false: "0"}
 	check := func(fs fullSpec, d *memory.Database, ret int, prunedBefore uint64, what string) {
 		height := fs.Chain.height()
 		l1, _ := fs.l1Head()
 		o, floor := run(fs, d, ret)
-		ans := h.bt.ask(fmt.Sprintf("pr.cutoff %s %s %d %d %d %d x", b2[zero], b2[below], height, l1, ret, prunedBefore))
+		ans := h.bt.ask(fmt.Sprintf("pr.cutoff %d %d %d %d x", height, l1, ret, prunedBefore))
 		h.res.Compared(1)
 		h.res.Case(fmt.Sprintf("prune-cutoff|%d|%d|%d|%d", height, l1, ret, prunedBefore), true)
 		var impl string
@@ -1566,8 +1537,7 @@ func (h *harness) prunerStaleTokenCrash(fs fullSpec, family string) {
 		h.res.Violate(lib.Violation{Sig: sig, What: "restart on the image fails: " + msg, Replay: rp})
 		return
 	}
-	// correspondence: the set of blocks that lose history entries is the one Pruner.finish gives for the
-	// pinned or for the guarded variant (token and disk read off the image)
+	// correspondence: the set of blocks that lose history entries is the one Pruner.finish gives (token and disk read off the image)
 	{
 		tok, _ := migration.GetIntermediateState(img, 1)
 		stager, cut := binary.BigEndian.Uint64(tok[0:8]), binary.BigEndian.Uint64(tok[16:24])
@@ -1605,16 +1575,13 @@ func (h *harness) prunerStaleTokenCrash(fs fullSpec, family string) {
 			}
 			return show(l)
 		}
-		m0 := restrict(h.bt.ask(fmt.Sprintf("pr.finish 0 %d %d %d 0 %s -", cut, height, stager, show(liveL))))
-		m1 := restrict(h.bt.ask(fmt.Sprintf("pr.finish 1 %d %d %d 0 %s -", cut, height, stager, show(liveL))))
+		m1 := restrict(h.bt.ask(fmt.Sprintf("pr.finish %d %d %d 0 %s -", cut, height, stager, show(liveL))))
 		h.res.Compared(1)
-		if got := show(lost); got != m0 && got != m1 {
-			h.res.Mismatch(lib.Mismatch{Sig: "pruner-finish-lost-blocks-differ", Impl: got, Model: "pinned " + m0 + " / guarded " + m1,
+		if got := show(lost); got != m1 {
+			h.res.Mismatch(lib.Mismatch{Sig: "pruner-finish-lost-blocks-differ", Impl: got, Model: m1,
 				Input: fmt.Sprintf("cutoff %d height %d token stager %d live %s", cut, height, stager, show(liveL))})
-		} else if got == m0 && m0 != m1 {
-			h.res.Hit("pruner-finish:pinned-variant")
 		} else {
-			h.res.Hit("pruner-finish:guarded-variant")
+			h.res.Hit("pruner-finish:agree")
 		}
 	}
 	if same, why := sameDumpModuloEmpty(fs.Chain, dump(o.after), dump(tw.after)); !same {
